@@ -10,6 +10,21 @@ CHECKS = {
          "The implementation-shaped model of the sort/cumulate/tie-group/running-minimum scan is proved equal to the defining formula for every weak order and labelling up to N=5 (all argsort tie orders; N=6, sampled N=7 in thorough); every one of those inputs, in both directions and under rotating dtypes/label encodings/rescalings/permutations/APIs, is then executed on the real code and the recorded q-values (exact rationals) and labels are accepted or rejected by TLC against the same definition.",
          "Trusted: TLC, the JSON trace encoding, rational reconstruction of float32 q-values (denominator <= n, 2e-6 relative). Small-scope hypothesis for n > 6 is covered only by random vectors (n <= 400).",
          "DESIGN.md §3 C01"),
+ "C03": ("model_checking",
+         "TLC model checking of Confidence.tla (chunk/sort/de-dup/temp files/glob/k-way merge/seen sets vs ConfDef) + TLC trace validation (ConfTrace.tla) of result files written by the real assign_confidence and brew_rollup on every TLC-enumerated canonical table",
+         "The implementation-shaped pipeline model is checked against the declarative retained-set predicates for every canonical table within the bounds, every chunk size, flag combination, tie order and merge-list order; TLC then enumerates every canonical table (ConfGen.tla), the driver runs the real assign_confidence (rotating labels, flags, chunk sizes, formats, workers; several collections with/without prefixes; larger random tables with heavy ties) and brew_rollup on its result files, and TLC accepts each recorded set of result files iff it satisfies the same predicates, rows are intact, the target/decoy split is right and q-values equal the C01 formula over exactly the retained rows.",
+         "Trusted: TLC, the independent result-file reader of the driver, dyadic scores (exact text round trip), stub PEP algorithm on tiny tables. With decoys=False only tie-free tables are in the domain (retained decoys unobservable).",
+         "DESIGN.md §3 C03"),
+ "C19": ("model_checking",
+         "TLC model checking of PinTsv.tla (line conversion with Python slice semantics, validity test, second pass vs declarative clauses) + TLC trace validation (PinTsvTrace.tla) of conversions recorded from the real pin_to_valid_tsv / is_valid_tsv / CLI verify step on every TLC-enumerated text",
+         "Every small PIN text (features, protein-column position, DefaultDirection kinds, trailing newline, protein counts) is model-checked and then converted by the real code; TLC recomputes the expected conversion from the recorded input and compares field by field, incl. validity flags and idempotence.",
+         "Trusted: TLC, driver's text rendering/splitting. Domain per statement: >= 1 PSM line, no empty field at a line end.",
+         "DESIGN.md §3 C19"),
+ "C20": ("model_checking",
+         "TLC model checking of PepXml.tla (nested run/spectrum/hit iteration, modification insertion with running offset, label rule vs declarative row list) + TLC trace validation (PepXmlTrace.tla) of rows recorded from the real read_pepxml on every TLC-enumerated document",
+         "Every small PepXML document structure is model-checked and rendered to real XML; the rows returned by read_pepxml(to_df=True) are accepted by TLC iff they equal the declarative row list (one PSM per hit in order, spectrum attributes, file name, modified peptide, proteins, label, scores); error paths must raise.",
+         "Trusted: TLC, the driver's XML rendering, values chosen outside the log-transform heuristics. Files without any search hit are outside the quantifier.",
+         "DESIGN.md §3 C20"),
 }
 PENDING = {}   # id -> reason (not_applicable)
 
